@@ -48,35 +48,45 @@ H(e) == hist' = Append(hist, e)
 Marking == {r \in RunIds : run[r].pc = "mark"}
 GoodData(d, k) == [slot |-> d.slot, src |-> Max(Epoch(d.slot) - 1, 0), tgt |-> Epoch(d.slot), root |-> k]
 
-\* weights: a beacon node mostly answers well
-FetchChoice(d, n) == IF n <= 4 THEN GoodData(d, 1 + (n % Cardinality(Roots)))
-                     ELSE CHOOSE a \in DataChoices(d) : TRUE
-
 Internal(r) ==
     \/ Validate(r, DataOK(run[r].duty, run[r].data))
     \/ Build(r, {ExpectedAtt(run[r].duty, v, run[r].data) : v \in Signed(run[r])})
     \/ /\ run[r].pc = "ret"
        /\ Housekeep(r, IF r \in succ THEN {p \in attested : p[1] + 2 = Epoch(run[r].duty.slot)} ELSE {})
 
+\* one randomly drawn duty per step (TLC simulation; RandomElement follows -seed), so that the many
+\* possible duties do not outweigh the other steps
+\* (the argument keeps TLC from caching the drawn value as a constant)
+RandomDuty(x) == MkDuty(RandomElement(IF x >= 0 THEN ScenSlots ELSE {}), RandomElement(InjSeqs), RandomElement(1..2), RandomElement(0..(NC - 1)))
+\* ... or a duty already delivered (re-delivery after a reorg, retry), possibly moved to another slot
+Redeliver(x) == LET S == {run[q].duty : q \in Started} IN
+                IF S = {} THEN RandomDuty(x)
+                ELSE LET d == RandomElement(S) IN
+                     IF RandomElement(1..2) = 1 THEN d ELSE [d EXCEPT !.slot = RandomElement(IF x >= 0 THEN ScenSlots ELSE {})]
+
 HistNext ==
-    \/ \E r \in RunIds, d \in HistDuties :
+    \/ \E r \in RunIds, n \in 1..3 :
             /\ \A q \in RunIds : q < r => run[q].pc # "idle"
-            /\ Deliver(r, d) /\ H([ev |-> "Deliver", run |-> r, duty |-> d]) /\ UNCHANGED succ
+            /\ LET d == IF n = 1 THEN Redeliver(Len(hist)) ELSE RandomDuty(Len(hist)) IN
+                 Deliver(r, d) /\ H([ev |-> "Deliver", run |-> r, duty |-> run'[r].duty]) /\ UNCHANGED succ
     \/ \E r \in RunIds :
         \/ \E a \in DataChoices(run[r].duty) \cup {GoodData(run[r].duty, k) : k \in Roots} :
                 Fetch(r, a) /\ H([ev |-> "Fetch", run |-> r, err |-> FALSE, data |-> a]) /\ UNCHANGED succ
-        \/ \E n \in 1..3 : Fetch(r, GoodData(run[r].duty, 1)) /\ H([ev |-> "Fetch", run |-> r, err |-> FALSE, data |-> GoodData(run[r].duty, 1)]) /\ UNCHANGED succ
+        \/ \E n \in 1..6 : Fetch(r, GoodData(run[r].duty, 1)) /\ H([ev |-> "Fetch", run |-> r, err |-> FALSE, data |-> GoodData(run[r].duty, 1)]) /\ UNCHANGED succ
         \/ FetchErr(r) /\ H([ev |-> "Fetch", run |-> r, err |-> TRUE]) /\ UNCHANGED succ
         \/ \E A \in SUBSET run[r].claimed :
                 Accounts(r, A) /\ H([ev |-> "Accounts", run |-> r, err |-> FALSE, accts |-> A]) /\ UNCHANGED succ
-        \/ \E n \in 1..2 : Accounts(r, run[r].claimed) /\ H([ev |-> "Accounts", run |-> r, err |-> FALSE, accts |-> run[r].claimed]) /\ UNCHANGED succ
+        \/ \E n \in 1..4 : Accounts(r, run[r].claimed) /\ H([ev |-> "Accounts", run |-> r, err |-> FALSE, accts |-> run[r].claimed]) /\ UNCHANGED succ
         \/ AccountsErr(r) /\ H([ev |-> "Accounts", run |-> r, err |-> TRUE]) /\ UNCHANGED succ
-        \/ \E Z \in SUBSET run[r].accts, ok \in BOOLEAN :
-                Sign(r, ExpectedReq(run[r]), SignData(run[r]), Z, ok)
-                /\ H([ev |-> "Sign", run |-> r, err |-> ~ok, zero |-> Z]) /\ UNCHANGED succ
-        \/ \E n \in 1..2 : Sign(r, ExpectedReq(run[r]), SignData(run[r]), {}, TRUE)
+        \/ \E Z \in SUBSET run[r].accts :
+                Sign(r, ExpectedReq(run[r]), SignData(run[r]), Z, TRUE)
+                /\ H([ev |-> "Sign", run |-> r, err |-> FALSE, zero |-> Z]) /\ UNCHANGED succ
+        \/ \E n \in 1..4 : Sign(r, ExpectedReq(run[r]), SignData(run[r]), {}, TRUE)
                 /\ H([ev |-> "Sign", run |-> r, err |-> FALSE, zero |-> {}]) /\ UNCHANGED succ
-        \/ \E ok \in {TRUE, TRUE, FALSE} :
+        \/ Sign(r, ExpectedReq(run[r]), SignData(run[r]), {}, FALSE)
+                /\ H([ev |-> "Sign", run |-> r, err |-> TRUE, zero |-> {}]) /\ UNCHANGED succ
+        \/ \E n \in 1..4 :
+                LET ok == n > 1 IN
                 Submit(r, ok) /\ H([ev |-> "Submit", run |-> r, err |-> ~ok])
                 /\ succ' = IF ok THEN succ \cup {r} ELSE succ
         \/ Internal(r) /\ UNCHANGED <<hist, succ>>
